@@ -416,7 +416,6 @@ const preludePathsAbstract = `
 (declare-fun cdirf (String String) String)
 (declare-fun opathf (String String String Bool) String)
 (declare-fun spathf (String) String)
-(assert (forall ((d String) (u String) (e String) (g Bool)) (! (= (opathf d u e g) (str.++ d "/" (str.++ u e (ite g ".gz" "")))) :pattern ((opathf d u e g)))))
 (assert (forall ((d String)) (! (= (spathf d) (str.++ d "/" "schema.json")) :pattern ((spathf d)))))
 (assert (forall ((d String) (u1 String) (u2 String) (e String) (g Bool)) (! (=> (= (opathf d u1 e g) (opathf d u2 e g)) (= u1 u2)) :pattern ((opathf d u1 e g) (opathf d u2 e g)))))
 (assert (forall ((d String) (u String) (e String)) (! (str.suffixof ".gz" (opathf d u e true)) :pattern ((opathf d u e true)))))
